@@ -19,7 +19,9 @@ VERIF = os.path.dirname(os.path.dirname(os.path.dirname(os.path.abspath(__file__
 REPO = os.environ.get("VERIF_REPO", "/repo")
 COQ = os.path.join(VERIF, "coq")
 BUILD = os.environ.get("VERIF_BUILD", os.path.join(VERIF, "build"))
-EVID = os.path.join(VERIF, "evidence")
+# VERIF_EVIDENCE redirects the evidence of a run against a scratch tree (bin/retest-seed, bin/confirm-seed), so
+# that the committed evidence/ only ever comes from runs against /repo itself
+EVID = os.environ.get("VERIF_EVIDENCE") or os.path.join(VERIF, "evidence")
 REPLAY = os.path.join(VERIF, "replay")
 GUARD = "LIBKDUMPFILE_VERIF"
 NPROC = os.cpu_count() or 4
